@@ -7,6 +7,30 @@ props = [json.loads(l)['id'] for l in open(os.path.join(V, 'properties.jsonl'))]
 
 # id -> (technique, decides, does-not-decide)
 claimed = {
+ 'C01': ("static: keyword->field agreement under path conditions, head/continuation pairing, lossy-operation classification on the qualifier def-use spine, regexp tables, wrapper terms over go/ssa",
+         "every top-level and reference keyword stores into the field the format assigns, unknown keywords into Other[keyword]; every continuation-joining call gets X[i] and X[i+1:]; no deleting/truncating string op between feature lines and Attributes values; ORIGIN filter deletes exactly non-letters; LOCUS topology words matched as whole tokens; features attached in order via AddFeature; Read*/Parse* wrapper plumbing incl. the 10-line header and the //\\n split",
+         "the line scanner itself (LOCUS length/molecule/division regexes, location and qualifier continuation detection, final-newline dependence of ParseMulti): known defects remain there, see DESIGN §6"),
+ 'C02': ("static: coordinate-offset terms of parser/printer/evaluator, marker-pattern table, evaluation and printing term shapes, loop rule for join operands over go/ssa",
+         "span and single-base literals Start=atoi-1/End=atoi; printer Itoa(Start+1)/Itoa(End); evaluator parent[Start:End]; markers stripped by a pattern matching exactly < and >, flags from Contains; inner nodes concatenate all sub-locations in order, complement = ReverseComplement of the whole; printer's three forms, tokens equal the parser's, < before start, > before end (fails today: known finding); join operands appended in a loop",
+         "that the parser accepts the whole grammar beyond the arity condition"),
+ 'C03': ("static: writer/reader keyword+field agreement, column-constant layout rules, map-order and no-shared-state rules over go/ssa",
+         "no map-ordered output; every reader-filled field is written under the reader's keyword, optional lines depend only on their own field; LOCUS line items; key pad 12 = continuation indent, feature columns 5/16/21, qualifier line shape, ORIGIN 60/10/9, section order and // terminator, wrap<=68; cached-or-built location; Build uses no package state; Write truncates",
+         "Parse(Build(x)) equality as a whole; word-wrap/rejoin identity on long text"),
+ 'C04': ("static: def-use term of the digest input under each of the 12 mode valuations (feasible-edge lattice), dependence rule, prerequisite table/shape rules over go/ssa",
+         "digest input = Min{Rot(x),Rot(RC(x))} / Rot(x) / Min{x,RC(x)} / x with x = ToUpper(seq) then U->T iff RNA, for every accepted type and flag combination; raw sequence only under ToUpper; type letter is the only RNA/DNA difference; complement table = involutive oracle; ReverseComplement shape; RotateSequence window",
+         "minimality of the rotation index (C12), BLAKE3"),
+ 'C05': ("static: per-valuation canonical-form and format terms, guard reachability under mode valuations, alphabet tables vs complement table over go/ssa",
+         "as C04 plus: result = v1_ + T C S + _ + hex(Sum256(canonical)[:]); digest unreachable for unknown types and double-stranded proteins; exactly one per-letter membership loop over the hashed string per type, miss -> error; alphabets; accepted nucleotide letters inside the complement table's domain and injective (fails today for DNA U and Z: known findings)",
+         "collision resistance; minimality of Rot"),
+ 'C09': ("static: channel/WaitGroup typestate (Add-before-go, deferred Done, collector<Wait<close<receive), ligation and dedup term shapes under path conditions, no-shared-state, variant rule over go/ssa",
+         "happens-before skeleton of CircularLigate/recurseLigate/getConstructs; closure, forward and flipped extension terms and their independent conditions; dedup key = seqhash(x,DNA,circular,double-stranded), keep iff unseen; goroutines use no package state; GoldenGate plumbing; recursive spawns carry a decreasing measure (fails today: known findings)",
+         "completeness/exactness of the enumerated ring set; scheduling beyond the listed edges"),
+ 'C10': ("static: enzyme constant table vs REBASE geometry, overhang/fragment term shapes under path conditions, strict cut-off comparison rule, dependence rule over go/ssa",
+         "BsaI/BbsI/BtgZI patterns, skip and overhang; forward = matchEnd+Skip, reverse = matchStart-Skip searched iff site != RC(site); fragments between consecutive sorted overhangs, directional keeps cur.Forward && !next.Forward; Fragment slices; circular scan stops only strictly beyond the original length; sequence only under ToUpper/len; ByName wrapper",
+         "rotation independence in general and the doubled-sequence bookkeeping (violated today for some rotations)"),
+ 'C12': ("static: term shape of the rotation window, comparison-direction and reaching-definition rules over go/ssa",
+         "RotateSequence = (s+s)[k:k+len(s)] with k = boothLeastRotation(s), no arithmetic on len that fails for the empty string; every byte comparison is 'current character < reference'; every table/string index uses the reaching definitions of the loop variables",
+         "MINIMALITY of k (correctness of Booth's failure-function scan): the heart of the property, needs a loop-invariant proof"),
  'C06': ("static: constant-table evaluation vs NCBI oracle + def-use term shape of generator/Translate over go/ssa",
          "all 25x128 genetic-code table facts against an independent NCBI oracle; generator pairs base1/2/3[i] with residue i and start/stop marks; translation map = all Triplet->Letter; Translate = lookup of ToUpper(3-letter window), one residue per window, no early exit",
          "std strings.Builder/ToUpper behaviour; non-ASCII input"),
